@@ -40,7 +40,10 @@ def restS (s : St) : List Nat :=
 
 /-- Everything `dispatchLocked` guarantees from a non-aborting state satisfying the invariant. -/
 structure DLSpec (c : Cfg) (t0 : Nat) (fo : Bool) (s s' : St) (more : Bool) : Prop where
-  inv : Inv c t0 s'
+  T : InvT c t0 none s'
+  S : InvS c t0 s'
+  L : InvL c t0 s'
+  iterp : IterPend t0 s → IterPend t0 s'
   frame : Frame s s'
   old : ∀ i, i < s.trk.length → getTrk s' i = getTrk s i
   len : s.trk.length ≤ s'.trk.length
@@ -57,6 +60,7 @@ structure DLSpec (c : Cfg) (t0 : Nat) (fo : Bool) (s s' : St) (more : Bool) : Pr
   more_abort : more = false → s'.aborting = false
   jobs_pre : ordered c = true → ∃ l, s'.jobs = s.jobs ++ l
   exh_stable : s.ready = [] → s.srcDead = true → s'.ready = [] ∧ s'.srcDead = true ∧ more = false
+  pos_le : s.srcPos ≤ s'.srcPos
 
 theorem map_items_push {s s' : St} {t : Tracker} (h : s'.trk = s.trk ++ [t]) {l : List Nat}
     (hl : ∀ i ∈ l, i < s.trk.length) :
@@ -66,7 +70,8 @@ theorem map_items_push {s s' : St} {t : Tracker} (h : s'.trk = s.trk ++ [t]) {l 
   rw [getTrk_push h]; simp [hl i hi]
 
 /-- Common part of the two dispatching cases (from the queue, `m = 0`; after slicing, `m > 0`). -/
-theorem dlspec_push {c : Cfg} {t0 : Nat} {fo : Bool} {s s' : St} (h : Inv c t0 s)
+theorem dlspec_push {c : Cfg} {t0 : Nat} {fo : Bool} {s s' : St}
+    (hT : InvT c t0 none s) (hS : InvS c t0 s) (hL : InvL c t0 s)
     {tasks : List Nat} {rest : List (List Nat)} {m : Nat}
     (hna : s.aborting = false) (htasks : tasks ≠ [])
     (hsplit : tasks ++ rest.flatten = s.ready.flatten ++ List.range' (s.base + s.srcPos) m)
@@ -89,7 +94,6 @@ theorem dlspec_push {c : Cfg} {t0 : Nat} {fo : Bool} {s s' : St} (h : Inv c t0 s
       s'.iterating = s.iterating ∧ s'.origAlive = s.origAlive ∧ s'.idle = s.idle ∧ s'.bsI = s.bsI ∧
       s'.inCb = s.inCb ∧ s'.nbConsumed = s.nbConsumed ∧ s'.aborted = s.aborted) :
     DLSpec c t0 fo s s' true := by
-  obtain ⟨hT, hS, hL, hP⟩ := h
   have hg := getTrk_push htrk
   have hlen : s'.trk.length = s.trk.length + 1 := by simp [htrk]
   have hT' := InvT_push hT htasks hna htrk hjobs hparked hframe.callId hab hexc hframe.failIds hframe.base
@@ -98,10 +102,12 @@ theorem dlspec_push {c : Cfg} {t0 : Nat} {fo : Bool} {s s' : St} (h : Inv c t0 s
     hframe.base hframe.spec
   have hL' : InvL c t0 s' := InvL_of hL (by rw [hsame.2.2.2.2.1]; exact id) hsame.2.2.2.2.2.1 hpre
     (by intro h1 h2 _; rw [hsame.2.2.2.2.2.1] at h2; exact (hexh h1 h2).elim)
-  have hP' : IterPend t0 s' := IterPend_of hP (by rw [hab]; exact id) (by rw [hsame.2.2.2.2.1]; exact id)
+  have hP' : IterPend t0 s → IterPend t0 s' := fun hP =>
+    IterPend_of hP (by rw [hab]; exact id) (by rw [hsame.2.2.2.2.1]; exact id)
     (by omega) (by intro _ i hi; rw [hg]; simp [hi])
-  refine ⟨⟨hT', hS', hL', hP'⟩, hframe, fun i hi => by rw [hg]; simp [hi], by omega, by simp, ?_, ?_, ?_, ?_,
-    hsame, by simp, fun ho => ⟨[s.trk.length], by rw [hjobs]; simp [ho]⟩, fun h1 h2 => (hnexh h1 h2).elim⟩
+  refine ⟨hT', hS', hL', hP', hframe, fun i hi => by rw [hg]; simp [hi], by omega, by simp, ?_, ?_, ?_, ?_,
+    hsame, by simp, fun ho => ⟨[s.trk.length], by rw [hjobs]; simp [ho]⟩, fun h1 h2 => (hnexh h1 h2).elim,
+    by rw [hpos]; omega⟩
   · intro _ _
     exact ⟨s.trk.length, hT.t0_le, by omega, by rw [hg]; simp [newTrk]⟩
   · intro _
@@ -142,7 +148,8 @@ theorem set_append_last {α : Type} (l : List α) (t t' : α) : (l ++ [t]).set l
 
 /-- The case where the input iterable raised while being sliced. -/
 theorem dlspec_raise {c : Cfg} {t0 : Nat} {fo : Bool} {s s1 : St} {bs m : Nat} {d : Bool} {pl : Option Nat}
-    {k : Nat} (h : Inv c t0 s) (hps : PullSpec fo k s m d pl true)
+    {k : Nat} (hT : InvT c t0 none s) (hS : InvS c t0 s) (hL : InvL c t0 s)
+    (hps : PullSpec fo k s m d pl true)
     (htrk : s1.trk = s.trk ++ [errTrk s bs])
     (hjobs : (if ordered c then s1.jobs else s1.jobs ++ [s.trk.length]) = s.jobs ++ [s.trk.length])
     (hparked : s1.parked = s.parked) (hready : s1.ready = s.ready)
@@ -153,7 +160,6 @@ theorem dlspec_raise {c : Cfg} {t0 : Nat} {fo : Bool} {s s1 : St} {bs m : Nat} {
       s1.inCb = s.inCb ∧ s1.nbConsumed = s.nbConsumed ∧ s1.aborted = s.aborted) :
     DLSpec c t0 fo s
       (registerOutcome c s1 s.trk.length .error (.exc (.iter (s.base + (s.srcPos + m))))) true := by
-  obtain ⟨hT, hS, hL, hP⟩ := h
   have hpend : getTrk s1 s.trk.length = errTrk s bs := by rw [getTrk_push htrk]; simp
   rw [registerOutcome_error (by rw [hpend]; rfl), hpend]
   have hraised := hps.raised rfl
@@ -181,30 +187,28 @@ theorem dlspec_raise {c : Cfg} {t0 : Nat} {fo : Bool} {s s1 : St} {bs m : Nat} {
   have hL' := InvL_of (s' := { s1 with trk := s1.trk.set s.trk.length { errTrk s bs with status := .error, result := .exc (.iter (s.base + (s.srcPos + m))) }, exception := true, aborting := true, jobs := if ordered c then s1.jobs else s1.jobs ++ [s.trk.length] })
     hL (by show s1.iterating = true → _; rw [hsame.2.2.2.2.1]; exact id) hsame.2.2.2.2.2.1
     (by intro hn; show s1.preLeft = none; rw [hpl]; exact hps.pl_none hn) (by intro _ _ h3; simp at h3)
-  refine ⟨⟨hT', hS', hL', by intro h3; simp at h3⟩,
+  refine ⟨hT', hS', hL', fun _ => by intro h3; simp at h3,
     ⟨hframe.base, hframe.spec, hframe.callId, hframe.callCtr, hframe.failIds, hframe.managed, hframe.running,
       hframe.calling, fun _ => rfl⟩, ?_, ?_, by simp, by simp, by simp, by simp, by simp, hsame, by simp,
     fun ho => ⟨[s.trk.length], by show (if ordered c then s1.jobs else s1.jobs ++ [s.trk.length]) = _; rw [hjobs]⟩,
-    fun _ h2 => by have := (hps.dead_mono h2).2.2; simp at this⟩
+    fun _ h2 => by have := (hps.dead_mono h2).2.2; simp at this, ?_⟩
   · intro i hi
     rw [getTrk_push (s := s) htrk']; simp [hi]
   · show s.trk.length ≤ (s1.trk.set _ _).length
     rw [htrk']; simp
+  · show s.srcPos ≤ s1.srcPos
+    rw [hpos]; omega
 
 theorem dispatchLocked_dlspec {c : Cfg} (hc : CfgOK c) {t0 : Nat} {fo : Bool} {bs : Nat} {s : St}
-    (hbs : 1 ≤ bs) (h : Inv c t0 s) (hna : s.aborting = false) :
+    (hbs : 1 ≤ bs) (hT : InvT c t0 none s) (hS : InvS c t0 s) (hL : InvL c t0 s) (hna : s.aborting = false) :
     DLSpec c t0 fo s (dispatchLocked c fo bs s).1 (dispatchLocked c fo bs s).2 := by
-  have hT := h.T
-  have hS := h.S
-  have hL := h.L
-  have hP := h.P
   rcases dispatchLocked_spec c fo bs s hna hS.ready_ne with
     ⟨tasks, rest, hrd, he⟩ | ⟨hrd, lg, m, d, pl, r, hps, hcases⟩
   · -- from the look-ahead queue
     obtain ⟨lg, hd⟩ := dispatch_eq (c := c) (s := { s with ready := rest }) tasks hna
     rw [he, hd]
     have htn : tasks ≠ [] := hS.ready_ne tasks (by simp [hrd])
-    refine dlspec_push (m := 0) (tasks := tasks) (rest := rest) h hna htn (by simp [hrd])
+    refine dlspec_push (m := 0) (tasks := tasks) (rest := rest) hT hS hL hna htn (by simp [hrd])
       (fun b hb => hS.ready_ne b (by simp [hrd, hb])) (by simp [hrd]) hS.src_le
       (fun hi => hS.src_iter hi) (fun hd' => hS.dead hna hd') ?_ (fun h1 _ => by rw [hrd] at h1; simp at h1)
       (fun hp => hp) rfl rfl rfl rfl rfl rfl rfl rfl rfl
@@ -234,12 +238,13 @@ theorem dispatchLocked_dlspec {c : Cfg} (hc : CfgOK c) {t0 : Nat} {fo : Bool} {b
           intro h1 h2 h3
           have := hL.orig_exh h1 h2 h3
           exact ⟨this.1, (hps.dead_mono this.2).1⟩)
-      have hP' : IterPend t0 { s with log := lg, srcPos := s.srcPos + 0, srcDead := d, preLeft := pl } :=
-        IterPend_of hP id id (Nat.le_refl _) (fun _ i _ => rfl)
-      refine ⟨⟨hT', hS', hL', hP'⟩, ⟨rfl, rfl, rfl, rfl, rfl, rfl, rfl, rfl, id⟩, fun i _ => rfl, Nat.le_refl _, ?_,
+      have hP' : IterPend t0 s →
+          IterPend t0 { s with log := lg, srcPos := s.srcPos + 0, srcDead := d, preLeft := pl } :=
+        fun hP => IterPend_of hP id id (Nat.le_refl _) (fun _ i _ => rfl)
+      refine ⟨hT', hS', hL', hP', ⟨rfl, rfl, rfl, rfl, rfl, rfl, rfl, rfl, id⟩, fun i _ => rfl, Nat.le_refl _, ?_,
         by simp, fun _ => Nat.le_refl _, by simp, fun _ _ => rfl,
         ⟨rfl, rfl, rfl, rfl, rfl, rfl, rfl, rfl, rfl, rfl, rfl⟩, fun _ => hna, fun _ => ⟨[], by simp⟩,
-        fun h1 h2 => ⟨h1, (hps.dead_mono h2).1, rfl⟩⟩
+        fun h1 h2 => ⟨h1, (hps.dead_mono h2).1, rfl⟩, Nat.le_refl _⟩
       intro _ _
       refine ⟨hrd, ?_⟩
       have hk : 0 < bs * c.nj := Nat.mul_pos (by omega) (by have := hc.nj; omega)
@@ -261,7 +266,7 @@ theorem dispatchLocked_dlspec {c : Cfg} (hc : CfgOK c) {t0 : Nat} {fo : Bool} {b
         simp only [List.flatten_cons, hsplit, List.length_range'] at this
         exact this
       have hmn := hps.le_n hS.src_le
-      refine dlspec_push (m := m) (tasks := tasks) (rest := rest) h hna htn (by simp [hrd, hsplit])
+      refine dlspec_push (m := m) (tasks := tasks) (rest := rest) hT hS hL hna htn (by simp [hrd, hsplit])
         hrest (by simp only [List.length_cons] at hcnt; simp only [hrd, List.length_nil]; omega) hmn
         (fun hi => hps.le_iter (hS.src_iter hi)) ?_ ?_ (fun _ h2 => by rw [hnd] at h2; simp at h2)
         hps.pl_none rfl rfl rfl rfl rfl rfl rfl rfl rfl
@@ -275,7 +280,7 @@ theorem dispatchLocked_dlspec {c : Cfg} (hc : CfgOK c) {t0 : Nat} {fo : Bool} {b
     · -- the iterable raised
       subst hr
       rw [he]
-      exact dlspec_raise h hps rfl
+      exact dlspec_raise hT hS hL hps rfl
         (by by_cases ho : ordered c = true <;> simp [ho])
         rfl rfl rfl rfl ⟨rfl, rfl, rfl, rfl, rfl, rfl, rfl, rfl, fun h => h⟩
         ⟨rfl, rfl, rfl, rfl, rfl, rfl, rfl, rfl, rfl, rfl, rfl⟩
